@@ -9,7 +9,8 @@ MODULES = K.mods("base", "Angle", "Epoch")
 REQUIRED = ["iint", "Epoch.__init__", "Epoch.set", "Epoch._compute_jde", "Epoch.get_date", "Epoch.dow",
             "Epoch.get_doy", "Epoch.doy", "Epoch.doy2date", "Epoch.year", "Epoch.leap", "Epoch.is_leap",
             "Epoch.mean_sidereal_time", "Epoch.apparent_sidereal_time", "Epoch.mjd", "Epoch.__call__"]
-THEOREMS = ["C16_epoch", "C16_dow", "C16_dow_within_day", "C16_dow_next", "C16_dow_gregorian", "C16_get_doy", "C16_doy_int_args", "C16_doy_dec31", "C16_doy2date", "C16_doy_refused", "C16_leap", "C16_methods", "C16_methods_month_ends", "C16_year_order", "C16_mjd", "C16_sidereal"]
+THEOREMS = ["C16_epoch", "C16_dow", "C16_dow_within_day", "C16_dow_next", "C16_dow_gregorian", "C16_get_doy", "C16_doy_int_args", "C16_doy_dec31", "C16_doy2date", "C16_doy_refused", "C16_leap", "C16_methods", "C16_methods_month_ends", "C16_year_order", "C16_mjd", "C16_sidereal",
+            "C16_sidereal_ideal", "C16_sidereal_rate", "C16_apparent_ideal"]
 PROOF_TIMEOUT = {"quick": 2400, "thorough": 3400}
 EXHAUSTIVE = True
 MANIFEST = {
@@ -20,10 +21,12 @@ MANIFEST = {
              "generated text, to be get_date followed by the static functions for every Epoch object, giving year() = y + (doy-1)/365|366 whose "
              "floor and strict day-to-day increase are checked on every date; mean sidereal time is compared by the kernel with the exact "
              "rational value of the IAU 1982 expression (1e-7 day, result in [0,1)) at 117 387 instants; bit-exact correspondence model vs "
-             "implementation every run; apparent sidereal time by correspondence and search."),
+             "implementation every run; ideal (real-number) instance: mean sidereal time in [0,1) and congruent mod 1 to the independently "
+             "transcribed IAU 1982 expression for EVERY real JDE >= 0, rate 1.00273790935 exactly, apparent = mean + dpsi cos(eps)/15; "
+             "size of the equation of the equinoxes by correspondence and search."),
     "technique": ("kernel computation over the full finite domain (vm_compute reflection) + symbolic composition lemmas on the "
                   "generated text + lia on the calendar spec + exact rational arithmetic for IAU 1982 + bit-exact differential "
-                  "correspondence + oracle search"),
+                  "correspondence + oracle search + symbolic evaluation of the generated text over the reals (pyrun, floor/fmod lemmas, field)"),
     "design_ref": "8/C16",
 }
 EXPLANATION = ("The model regenerated from /repo is evaluated by the Coq kernel on EVERY civil date -4712..6000 (16 shards, vm_compute), with the "
@@ -48,14 +51,14 @@ CLAUSES = {
     "fractional year: integer part = calendar year, strictly increasing day to day": "proved [B64, full domain: value y + (doy-1)/365|366, floor and comparison of every consecutive pair]; within-day monotonicity only searched",
     "leap()/is_leap follow the leap rule in force": "proved [B64, every year, int and float argument]",
     "MJD = JDE - 2400000.5": "proved [B64, exact at 0h of every civil date]; other instants by correspondence/search",
-    "mean sidereal time in [0,1)": "proved [B64] at 117 387 instants (every 100th day x 3 fractions; every 8th day in the thorough-only obligation); all JDE only searched (T3 not attempted)",
-    "mean sidereal time agrees with IAU 1982 to 1e-7 day, rate 1.00273790935 turns/day": "proved [B64 vs exact rational IAU 1982 value] at the same instants (the spec is linear in the day fraction with that rate); ideal-instance identity for all JDE: unproved (searched) - pyrun needs a case split per float % (24 leaves), not finished",
-    "apparent - mean sidereal time = equation of the equinoxes, under 1.2 s": "unproved (searched): needs libm (cos) and the nutation series; correspondence + oracle over JDE in [0, 5.4e6]; known finding equation-of-equinoxes-exceeds-1.2s-far-epochs (up to ~1.204 s outside years -2000..4000)",
+    "mean sidereal time in [0,1)": "proved [ideal, every real JDE >= 0: C16_sidereal_ideal]; proved [B64] at 117 387 instants (every 100th day x 3 fractions; every 8th day in the thorough-only obligation); all JDE only searched (T3 not attempted)",
+    "mean sidereal time agrees with IAU 1982 to 1e-7 day, rate 1.00273790935 turns/day": "proved [ideal, EVERY real JDE >= 0: C16_sidereal_ideal - the returned value is in [0,1) and congruent mod 1 to the independently transcribed IAU 1982 expression Spec.Sidereal.gmst_iau1982 (exactly; within TOL=1e-10 d after 0h the code returns the 0h value, stated as such), C16_sidereal_rate - the expression advances by exactly 1.00273790935 turns/day within a civil day]; proved [B64 vs exact rational IAU 1982 value, 1e-7 day] at the 117 387 instants; binary64 rounding for all JDE: unproved (searched)",
+    "apparent - mean sidereal time = equation of the equinoxes, under 1.2 s": "proved [ideal: C16_apparent_ideal - apparent = mean + dpsi*3600*cos(eps)/15/86400 for arbitrary nutation dpsi and obliquity eps given as floats or Angles]; the size bound 1.2 s depends on the nutation series: unproved (searched; correspondence + oracle over JDE in [0, 5.4e6]); known finding equation-of-equinoxes-exceeds-1.2s-far-epochs (up to ~1.204 s outside years -2000..4000)",
 }
 
 
 def proof_files(tier):
-    fs = ["C16_defs.v"] + ["C16_shard_%02d.v" % k for k in range(16)] + ["C16_main.v"]
+    fs = ["C16_defs.v"] + ["C16_shard_%02d.v" % k for k in range(16)] + ["C16_main.v", "C16_tac.v", "C16_ideal.v"]
     if tier == "thorough":
         # extra obligations (not in THEOREMS, which is the same in both tiers): within-day weekday on EVERY
         # civil date, sidereal time on every 8th day; a failure breaks stage P
